@@ -14,7 +14,7 @@
 (*   verts    the vertices: records [t |-> ccw plane-index triple in       *)
 (*            canonical rotation, h |-> exact homogeneous point]           *)
 (*   visited  candidates taken from the nearest-neighbour stream so far    *)
-(*   pc       "visit" | "done" | "degenerate"                              *)
+(*   pc       "visit" | "done"                                             *)
 (*   last     the last candidate taken and what was done with it           *)
 (*   flags    history bits used for classification / non-vacuity           *)
 (*                                                                         *)
@@ -103,20 +103,26 @@ EdgeIn(T) == \E v1 \in T : \E v2 \in T : v1.h # v2.h /\ Adjacent(v1.t, v2.t)
 BoundaryEdges(R) == LET RE == UNION {Edges(v.t) : v \in R}
                     IN {e \in RE : Rev(e) \notin RE}
 
-\* clip_by_plane (convex_cell.rs:385-485) with removed set R.
+\* Location of the new vertex on the boundary edge e = (x -> y) of the removed set R under the new plane pi
+\* (convex_cell.rs, clip_by_plane + Vertex::from_dual_on_edge): the intersection of the three planes when they are
+\* independent; when the supporting line of the edge lies in the new plane (dependent triple - possible only when
+\* tie decisions split an edge that lies in the plane, see Ties = "any") the new vertex takes the place of the
+\* removed end point of the edge (both end points are on the plane then).
+EdgeOwner(R, e) == CHOOSE v \in R : e \in Edges(v.t)
+NewPoint(ps2, R, e, pi) ==
+    IF IndependentAt(ps2, <<e[1], e[2], pi>>) THEN PointOf(ps2, <<e[1], e[2], pi>>) ELSE EdgeOwner(R, e).h
+
+\* clip_by_plane (convex_cell.rs) with removed set R.
 ApplyClip(q, p, R) ==
     IF R = {}
-    THEN UNCHANGED <<planes, verts>> /\ pc' = "visit"         \* plane not even stored (:433)
+    THEN UNCHANGED <<planes, verts>> /\ pc' = "visit"         \* plane not even stored
     ELSE LET pi  == Len(planes) + 1
              ps2 == Append(planes, NgbDesc(q, p))
              B   == BoundaryEdges(R)
-         IN IF \A e \in B : IndependentAt(ps2, <<e[1], e[2], pi>>)
-            THEN /\ planes' = ps2
-                 /\ verts' = (verts \ R) \cup
-                              {[t |-> Canon(<<e[1], e[2], pi>>), h |-> PointOf(ps2, <<e[1], e[2], pi>>)] : e \in B}
-                 /\ pc' = "visit"
-            ELSE \* intersect_planes would hit "Degenerate 3-plane intersection!"
-                 UNCHANGED <<planes, verts>> /\ pc' = "degenerate"
+         IN /\ planes' = ps2
+            /\ verts' = (verts \ R) \cup
+                         {[t |-> Canon(<<e[1], e[2], pi>>), h |-> NewPoint(ps2, R, e, pi)] : e \in B}
+            /\ pc' = "visit"
 
 \* One iteration of the loop in ConvexCell::build (convex_cell.rs:349-380) for candidate q at
 \* squared distance dd.  safety_radius = 2 sqrt(max r^2) (:514-524), r^2 in the active subspace
@@ -168,13 +174,14 @@ Spec == Init /\ [][Next]_vars
 (* invariants *)
 TypeOK ==
     /\ c \in 1..Len(inp.gens)
-    /\ pc \in {"visit", "done", "degenerate"}
+    /\ pc \in {"visit", "done"}
     /\ \A v \in verts : /\ v.t \in (1..Len(planes)) \X (1..Len(planes)) \X (1..Len(planes))
                         /\ v.t = Canon(v.t)
                         /\ v.h[4] > 0
 
-\* Exact arithmetic with ties kept never produces a dependent plane triple.
-NoDegenerate == pc # "degenerate"
+\* Exact arithmetic with ties kept never produces a dependent plane triple: every vertex is the intersection of
+\* three independent planes (the edge fall-back of NewPoint is never taken).
+NoDegenerate == \A v \in verts : IndependentAt(planes, v.t)
 
 AllEdges == UNION {Edges(v.t) : v \in verts}
 \* Closed oriented surface: every directed dual edge occurs in exactly one vertex and its reverse
@@ -190,6 +197,8 @@ Euler == 2 * Cardinality(verts) - 3 * Cardinality(verts) + 2 * Cardinality(UsedP
 \* "counter-clockwise around the vertex": the determinant of the three inward normals has the
 \* sign it has for the corners of the box (negative), for every vertex ever created.
 Oriented == \A v \in verts : Det3(planes[v.t[1]].pl.n, planes[v.t[2]].pl.n, planes[v.t[3]].pl.n) < 0
+\* with arbitrary tie decisions a vertex may sit on a dependent triple (determinant 0), never on a reversed one
+OrientedWeak == \A v \in verts : Det3(planes[v.t[1]].pl.n, planes[v.t[2]].pl.n, planes[v.t[3]].pl.n) <= 0
 
 \* Every vertex lies on its three planes and inside every stored half-space.
 InsideCurrent ==
